@@ -26,6 +26,7 @@ def load_cases(out_dir: Path, *, seed: int, keep_every: int = 1):
                 if keep_every > 1 and h % keep_every != 0:
                     continue
                 cases.append({"tm": g["tm"], "v": c["v"], "A": [CATS[x] for x in o["A"]], "exp_term": o["term"],
+                              "eqold": c.get("eqold"), "eqnew": c.get("eqnew"),
                               "exp_cats": sorted(CATS[x] for x in o["cats"]),
                               "id": "%s#%d#%s" % (f.stem, ci, "".join(map(str, o["A"]))), "h": h})
     cases.sort(key=lambda r: r["h"])
@@ -51,12 +52,22 @@ def judge(case, g, text, obs, seed):
     if obs.get("finish_error"):
         mm("finish", ["C18"], obs["finish_error"][:2])
         return mism, None
+    # --- the answer of the comparison itself (C06 without flags; C07/C02: made to succeed so that the test goes on)
+    if case.get("eqold") is not None and obs.get("log") and not RA.has_tag(tm, {"sn"}):
+        want = case["eqnew"] if A else case["eqold"]
+        got = obs["log"][0][2]
+        if got != ("T" if want else "F"):
+            mm("res", ["C06"] if not A else ["C07", "C02", "C08"], {"exp": "T" if want else "F", "got": got})
     new_text = obs["files"]["test_case.py"]
     try:
         args = inline_driver.snapshot_args(new_text)
         orig = inline_driver.snapshot_args(text)
     except SyntaxError as e:
         mm("syntax", ["C03", "C18"], str(e))
+        return mism, None
+    if RA.has_tag(tm, {"sn"}):
+        # nested snapshot() calls are call sites of their own (their arguments change through their own site):
+        # for these hostile programs only completion (C18) and validity (C03) are judged
         return mism, None
     if len(args) != 1 or args[0][3] is None:
         mm("sites-lost", ["C03"], {"got": len(args)})
@@ -179,6 +190,11 @@ def replay_case(case, seed, chain=True):
     mism, new_term = judge(case, g, text, obs, seed)
     new_text = obs.get("files", {}).get("test_case.py")
     info = {"atoms": g.atoms, "class_kind": g.class_kind, "multiline": g.multiline}
+    if chain and new_text is not None and RA.has_tag(case["tm"], {"sn"}) and not mism:
+        obs2 = inline_driver.run_session({"test_case.py": new_text}, case["A"])
+        if obs2.get("finish_error") or obs2.get("import_error"):
+            mism.append({"clause": "second-run-error", "props": ["C18"], "run": case["id"], "A": case["A"],
+                         "detail": (obs2.get("finish_error") or obs2.get("import_error"))[:2]})
     if chain and new_term is not None and not any(m["props"] for m in mism):
         # C08: the same session again changes nothing
         obs2 = inline_driver.run_session({"test_case.py": new_text}, case["A"])
@@ -228,6 +244,58 @@ def _worker(args):
         try:
             with contextlib.redirect_stderr(io.StringIO()):
                 mism, info, text, new_text = replay_case(case, seed)
+            out.append({"id": case["id"], "mism": mism, "info": info, "text": text if mism else None,
+                        "new": new_text if mism else None})
+        except Exception:  # noqa
+            import traceback
+            out.append({"id": case["id"], "error": traceback.format_exc()[-2000:]})
+    return out
+
+
+def replay_tail(case, seed):
+    """C08 at the structural level: all four categories approved, a second (empty) snapshot follows the compared
+    one in the same test; the second identical session must not change a byte"""
+    from . import inline_driver
+    rng = random.Random("%s|%s|tail" % (case["id"], seed))
+    g = RA.Gamma(rng, case["tm"], case["v"])
+    text = RA.render(case["tm"], case["v"], g, extra_tests="    with _r.at(1, 2):\n        assert 'tail' == snapshot()\n")
+    flags = ["create", "fix", "trim", "update"]
+    obs = inline_driver.run_session({"test_case.py": text}, flags)
+    mism = []
+
+    def mm(clause, props, detail):
+        mism.append({"clause": clause, "props": props, "detail": detail, "run": case["id"], "A": flags})
+    if obs.get("finish_error") or obs.get("import_error"):
+        mm("finish", ["C18"], (obs.get("finish_error") or obs.get("import_error"))[:2])
+        return mism, {"atoms": g.atoms}, text, None
+    t1 = obs["files"]["test_case.py"]
+    try:
+        args = inline_driver.snapshot_args(t1)
+    except SyntaxError as e:
+        mm("syntax", ["C03"], str(e))
+        return mism, {"atoms": g.atoms}, text, t1
+    repairable = bool(case.get("eqnew"))
+    if repairable and (len(args) < 2 or args[1][2] is None):
+        mm("later-snapshot-not-reached", ["C02", "C08"], {"after_run1": t1})
+    obs2 = inline_driver.run_session({"test_case.py": t1}, flags)
+    if obs2.get("finish_error") or obs2.get("import_error"):
+        mm("second-run-error", ["C18", "C08"], (obs2.get("finish_error") or obs2.get("import_error"))[:2])
+    elif repairable and obs2["files"]["test_case.py"] != t1:
+        mm("second-run-writes", ["C08"], {"after_run2": obs2["files"]["test_case.py"]})
+    elif repairable and any(t["exc"] or t["missing"] or t["incorrect"] for t in obs2["tests"]):
+        mm("second-run-fails", ["C08"], {"tests": obs2["tests"]})
+    return mism, {"atoms": g.atoms, "class_kind": g.class_kind}, text, t1
+
+
+def _worker_tail(args):
+    cases, seed = args[0], args[1]
+    import contextlib
+    import io
+    out = []
+    for case in cases:
+        try:
+            with contextlib.redirect_stderr(io.StringIO()):
+                mism, info, text, new_text = replay_tail(case, seed)
             out.append({"id": case["id"], "mism": mism, "info": info, "text": text if mism else None,
                         "new": new_text if mism else None})
         except Exception:  # noqa
